@@ -7,7 +7,7 @@ from ..fold import NotConst, ObjEnv, exec_block, _Return
 from ..model import AnalysisError, U, walk_no_nested, parent, ancestors
 
 P15 = ("C15",)
-P15_03 = ("C15", "C03")
+P15_03 = ("C15", "C03", "C01", "C04")
 
 
 # ------------------------------------------------------------ common facts
